@@ -127,6 +127,10 @@ func (c *ExecuteCtx) AdjustChunkCache(chooseIdxes []int) {
 		}
 		c.FieldChunkCaches[k] = nv
 	}
+	// The per-chunk entries were computed on the unfiltered chunks. They are
+	// looked up by the first key of a chunk only, and the filtered chunk handed
+	// to the next plan can start with the same key: forget them.
+	clear(c.FieldChunkKeyCaches)
 }
 
 type FinalPlan interface {
